@@ -544,6 +544,17 @@ def make_module(I):
         if every:
             return z3.ForAll([q], z3.Implies(z3.And(q >= 0, q < n), x.pred(q)))
         return z3.Exists([q], z3.And(q >= 0, q < n, x.pred(q)))
+    def _abs(I_, a, k):
+        x = a[0]
+        if not (isinstance(x, SymArr) and len(x.shape) == 1 and x.ctype and is_int_ctype(x.ctype)) or k or len(a) > 1:
+            raise Unsupported("np.abs of this operand")
+        # element-wise, in the dtype of the array: |minimum of a signed type| wraps back to the minimum
+        q = z3.Int("q!abs")
+        v = z3.Select(x.arr, q)
+        I_.ctx.trusted.add("np.abs of an integer array: element-wise absolute value in the array's dtype (the minimum of a signed type wraps to itself)")
+        return SymArr(x.name + "_abs", x.ctype, x.shape, arr=z3.Lambda([q], _wrap_to(x.ctype, z3.If(v < 0, -v, v))))
+    ns["abs"] = Native("np.abs", _abs)
+    ns["absolute"] = ns["abs"]
     ns["all"] = Native("np.all", _all)
     ns["any"] = Native("np.any", lambda I_, a, k: _all(I_, a, k, every=False))
 
